@@ -392,7 +392,7 @@ def gen_value(rs, int_digits, d, allow_wide=False):
 
 
 def gen_box(rs, wide=False):
-    kind = int(rs.randint(0, 7))
+    kind = int(rs.randint(0, 10))
 
     def val(diag):
         k = int(rs.randint(0, 8))
@@ -413,8 +413,23 @@ def gen_box(rs, wide=False):
         for i in range(3):
             m[i][i] = val(True)
         return ("mat", m)
+    if kind in (5, 6, 7):
+        # every single off-diagonal position / random subsets of them non-zero (the 3-or-9 rule
+        # looks at each of the six)
+        m = [[0.0] * 3 for _ in range(3)]
+        for i in range(3):
+            m[i][i] = val(True)
+        off = [(0, 1), (0, 2), (1, 0), (1, 2), (2, 0), (2, 1)]
+        if kind == 5:
+            chosen = [off[int(rs.randint(0, 6))]]
+        else:
+            chosen = [o for o in off if rs.randint(0, 2)]
+        for (i, j) in chosen:
+            x = val(False)
+            m[i][j] = x if x != 0.0 or rs.randint(0, 2) else float(rs.uniform(-3, 3))
+        return ("mat", m)
     m = [[val(i == j) for j in range(3)] for i in range(3)]
-    if kind == 5:                          # GROMACS-style triclinic (v1(y)=v1(z)=v2(z)=0)
+    if kind == 8:                          # GROMACS-style triclinic (v1(y)=v1(z)=v2(z)=0)
         m[0][1] = m[0][2] = m[1][2] = 0.0
     return ("mat", m)
 
